@@ -57,6 +57,7 @@ func newTarget(label string) *target {
 }
 
 func (t *target) start(r *runner) {
+	verifYield("start", t.label)
 	t.m.Lock()
 	if t.status != statusIdle {
 		t.m.Unlock()
@@ -70,6 +71,7 @@ func (t *target) start(r *runner) {
 }
 
 func (t *target) wait() error {
+	verifYield("wait", t.label)
 	t.m.Lock()
 	defer t.m.Unlock()
 
@@ -88,12 +90,15 @@ func (t *target) run(r *runner) {
 		t.c.Broadcast()
 	}
 
+	verifYield("run.enter", t.label)
 	r.gate.enter()
 	defer r.gate.exit()
 
 	// Load the target.
+	verifYield("run.load", t.label)
 	tt, err := r.targetLoader.LoadTarget(t.label)
 	if err != nil {
+		verifYield("run.finish", t.label)
 		t.m.Lock()
 		defer unlock()
 
@@ -108,6 +113,7 @@ func (t *target) run(r *runner) {
 		status = statusFailed
 	}
 
+	verifYield("run.finish", t.label)
 	t.m.Lock()
 	defer unlock()
 	t.status, t.err = status, err
@@ -123,6 +129,7 @@ func (e *engine) check(dep *target) error {
 		return CyclicDependencyError(fmt.Sprintf("cyclic dependency on %v", dep.label))
 	}
 
+	verifYield("check.load", dep.label)
 	if waiting := dep.waiting.Load(); waiting != nil {
 		return e.checkDeps(*waiting)
 	}
@@ -139,6 +146,7 @@ func (e *engine) checkDeps(deps []*target) error {
 }
 
 func (e *engine) EvaluateTargets(labels ...string) []Result {
+	verifYield("et.enter", e.root.label)
 	e.runner.gate.exit()
 	defer e.runner.gate.enter()
 
@@ -148,10 +156,13 @@ func (e *engine) EvaluateTargets(labels ...string) []Result {
 		targets[i].start(e.runner)
 	}
 
+	verifYield("et.publish", e.root.label)
 	e.root.waiting.Swap(&targets)
 	defer e.root.waiting.Swap(nil)
+	defer verifYield("et.clear", e.root.label)
 
 	results := make([]Result, len(targets))
+	verifYield("et.check", e.root.label)
 	if err := e.checkDeps(targets); err != nil {
 		for i := range results {
 			results[i].Error = err
@@ -180,6 +191,7 @@ func newGate(capacity int) *gate {
 }
 
 func (g *gate) enter() {
+	verifYield("gate.enter", "")
 	g.m.Lock()
 	defer g.m.Unlock()
 
@@ -190,6 +202,7 @@ func (g *gate) enter() {
 }
 
 func (g *gate) exit() {
+	verifYield("gate.exit", "")
 	g.m.Lock()
 	defer g.m.Unlock()
 
